@@ -53,11 +53,11 @@ type Match struct {
 }
 
 func (m Match) validate(allowEmpty bool) error {
-	if _, err := regexp.Compile(m.Path); err != nil {
+	if _, err := regexp.Compile(fullMatchPattern(m.Path)); err != nil {
 		return err
 	}
 
-	if _, err := regexp.Compile(m.Name); err != nil {
+	if _, err := regexp.Compile(fullMatchPattern(m.Name)); err != nil {
 		return err
 	}
 
@@ -187,7 +187,13 @@ func (m Match) IsMatch(ctx context.Context, path string, e discovery.Entry) bool
 // fullMatchRegex compiles s so that it must match the whole string,
 // including when s has a top level alternation like "foo|bar".
 func fullMatchRegex(s string) *regexp.Regexp {
-	return regexp.MustCompile("^(?:" + s + ")$")
+	return regexp.MustCompile(fullMatchPattern(s))
+}
+
+// fullMatchPattern is what gets compiled for s, validate it in this form:
+// a pattern can be valid on its own and invalid inside the group (`\Qfoo`).
+func fullMatchPattern(s string) string {
+	return "^(?:" + s + ")$"
 }
 
 type MatchLabel struct {
@@ -196,10 +202,10 @@ type MatchLabel struct {
 }
 
 func (ml MatchLabel) validate() error {
-	if _, err := regexp.Compile(ml.Key); err != nil {
+	if _, err := regexp.Compile(fullMatchPattern(ml.Key)); err != nil {
 		return err
 	}
-	if _, err := regexp.Compile(ml.Value); err != nil {
+	if _, err := regexp.Compile(fullMatchPattern(ml.Value)); err != nil {
 		return err
 	}
 	return nil
@@ -224,10 +230,10 @@ type MatchAnnotation struct {
 }
 
 func (ma MatchAnnotation) validate() error {
-	if _, err := regexp.Compile(ma.Key); err != nil {
+	if _, err := regexp.Compile(fullMatchPattern(ma.Key)); err != nil {
 		return err
 	}
-	if _, err := regexp.Compile(ma.Value); err != nil {
+	if _, err := regexp.Compile(fullMatchPattern(ma.Value)); err != nil {
 		return err
 	}
 	return nil
